@@ -172,6 +172,7 @@ func genC18(c *Chooser) *c18Graph {
 }
 
 func (g *c18Graph) yaml(c *Chooser) string {
+	callJobs := c.Weighted("world.calljobs", 1, 6)
 	var b strings.Builder
 	b.WriteString("on: push\njobs:\n")
 	line := 3
@@ -220,6 +221,13 @@ func (g *c18Graph) yaml(c *Chooser) string {
 					line++
 				}
 			}
+		}
+		if callJobs && c.Weighted("world.calljob", 1, 3) {
+			// a job that calls a local reusable workflow with a ref, which local calls cannot have: the
+			// workflow-call rule remembers the bad spec in the project's cache (shared by all files)
+			b.WriteString("    uses: ./.github/workflows/lib.yml@v1\n")
+			line++
+			continue
 		}
 		b.WriteString("    runs-on: ubuntu-latest\n    steps:\n      - run: echo\n")
 		line += 3
